@@ -764,9 +764,13 @@ impl<'a> Hooks for Checker<'a> {
                 }
             }
             OpResult::Segv(addr, write) => {
+                // a WRITE that faults outside the function being patched is a store aimed at memory
+                // the installation has no business with (C03), whatever stopped it
+                let (fs, _) = slot_of(t);
+                let wild = write && !(addr >= fs.saturating_sub(16) && addr < fs + 32);
                 self.viol(
                     "install-crashed-sigsegv",
-                    &["C01"],
+                    if wild { &["C01", "C03"] } else { &["C01"] },
                     format!("{what}: the installation touched {:#x} ({}) and would have died with SIGSEGV; entry offset in page {:#x}", addr, if write { "write" } else { "read" }, (t & !1) % sc.page_size),
                 );
                 // state is undefined from here on: stop judging this scenario
@@ -876,6 +880,7 @@ fn build_world(sc: &SimScenario) -> (World, Vec<(u64, Vec<u8>)>) {
         fail_mmap_all: false,
         fail_mprotect: Vec::new(),
         mprotect_deny: Vec::new(),
+        immutable: Vec::new(),
         mmap_min_addr: p.mmap_min_addr,
         user_limit: p.user_limit,
         win_granule: 0x10000,
@@ -911,6 +916,15 @@ fn build_world(sc: &SimScenario) -> (World, Vec<(u64, Vec<u8>)>) {
     }
     for (s, l) in &sc.foreign {
         w.map_fixed(*s, *l, 0, Owner::Foreign, None);
+    }
+    if sc.immutable_after_text {
+        if let Some(t) = sc.text.first() {
+            let a = t.addr + t.pages * sc.page_size;
+            if w.is_free(a, a + sc.page_size) && a + sc.page_size <= w.policy.user_limit {
+                w.map_fixed(a, sc.page_size, PROT_R, Owner::Foreign, Some(vec![0x5Au8; sc.page_size as usize]));
+                w.policy.immutable.push((a, a + sc.page_size));
+            }
+        }
     }
     (w, pristine)
 }
@@ -1155,8 +1169,18 @@ pub fn execute(sc: &SimScenario) -> Outcome {
             ck.viol("mapping-leaked-after-scope-exit", &["C12"], format!("{what}: injector mappings still present: {:x?}", left));
         }
         ck.verify_all(&what);
-        if ck.out.violations.iter().any(|v| !v.tag.starts_with("redirect-clobbers-register")) {
-            // later lifetimes would inherit the damage and be misattributed
+        // later lifetimes would inherit the damage and be misattributed: stop at the first
+        // violation that concerns the property being checked (VERIF_WANT_PROP), or at any
+        // violation when no property was named
+        let want = std::env::var("VERIF_WANT_PROP").ok();
+        let stop = ck.out.violations.iter().any(|v| {
+            !v.tag.starts_with("redirect-clobbers-register")
+                && match &want {
+                    Some(p) => v.props.iter().any(|x| x == p),
+                    None => true,
+                }
+        });
+        if stop {
             break;
         }
     }
